@@ -267,6 +267,23 @@ class Variable(_HasAttrs):
         self._check_writable()
         rec = self._rec()
         dims = rec["dims"]
+        # netCDF4 semantics: an open-ended slice along an unlimited dimension extends to the length of the data written
+        key_l = _expand_key(key, len(dims))
+        vshape = np.shape(value)
+        nd_kept = [i for i, k in enumerate(key_l) if not isinstance(k, (int, np.integer)) and not (hasattr(k, "ndim") and getattr(k, "ndim", 1) == 0)]
+        for pos_in_kept, i in enumerate(nd_kept):
+            k = key_l[i]
+            d = self._ds._state["dims"][dims[i]]
+            if isinstance(k, slice) and k.stop is None and (k.step is None or k.step == 1) and d["unlimited"]:
+                j = len(vshape) - (len(nd_kept) - pos_in_kept)
+                if j >= 0:
+                    start = k.start or 0
+                    if start < 0:
+                        start += d["len"]
+                    need = start + vshape[j]
+                    if vshape[j] != 1 or d["len"] == 0:
+                        key_l[i] = slice(start, max(need, d["len"]) if vshape[j] != 1 else max(need, d["len"]))
+        key = tuple(key_l)
         idx, drop = self._indexers(key, for_write=True)
         # grow unlimited dimensions
         for i, ix in enumerate(idx):
@@ -299,10 +316,18 @@ class Variable(_HasAttrs):
             return
         selshape = [ix.size for ix in idx]
         tgt = [s for i, s in enumerate(selshape) if i not in drop]
-        v = np.broadcast_to(v, tgt).reshape(selshape)
+        nsel = int(np.prod(selshape))
+        if v.size == nsel:                      # netCDF4 reshapes data of the right size to the shape of the slab
+            v = v.reshape(selshape)
+            if vmask is not None:
+                vmask = vmask.reshape(selshape)
+        else:
+            v = np.broadcast_to(v, tgt).reshape(selshape)
+            if vmask is not None:
+                vmask = np.broadcast_to(vmask, tgt).reshape(selshape)
         sel = np.ix_(*idx)
         data[sel] = v
-        mask[sel] = False if vmask is None else np.broadcast_to(vmask, tgt).reshape(selshape)
+        mask[sel] = False if vmask is None else vmask
 
     def __repr__(self):
         return "<stub Variable %s%s %s>" % (self._name, self.dimensions, self._rec()["dtype"])
